@@ -693,7 +693,22 @@ class C17(Property):
     id = "C17"
     title = "properties is a layered mapping: inherited downward, never leaking upward"
     proof_module = "Proofs.C17"
-    theorems = []
+    theorems = ["Flatland.C17.Proofs." + t for t in (
+        "no_upward_leak", "step_untouched", "no_upward_leak_history",
+        "read_is_overlay_class", "read_is_overlay_inst",
+        "overlay_applyOp", "dict_semantics_class", "dict_semantics_inst",
+        "dict_result_class", "iter_result_class",
+        "sees_ancestor", "write_visible_below", "write_visible_below_inst",
+        "detached", "detached_history",
+        "WF_step", "NoShared_step", "inv_run",
+        "C17_full_fails", "C17_full_fails_shared", "C17_full_fails_mi", "read_is_overlay_fails_mi",
+    )]
+    level_text = "proof"
+    level_note = ("non-interference, read=overlay, dict semantics (state change and results), downward visibility and "
+                  "detachment are proved for every store/history of the model; the history-level identification with the "
+                  "layered store of the property text (C17_Full) is false of the code as it is (three negation witnesses = "
+                  "KF-C17-a/b/c) and is checked on every generated history by the runner (spec_agrees) outside those classes")
+    technique = "Lean 4 model + invariants + refinement to a layered-store specification; differential testing against /repo"
     trusted_base = [
         "Python's class machinery (type(), __mro__, attribute lookup of data descriptors, instance __dict__) is the "
         "modelled boundary: the model takes the MRO of a class as given and resolves `cls.properties` to the first "
@@ -717,8 +732,8 @@ class C17(Property):
             "through 2 views and a tombstone somewhere; distinct = distinct canonical case JSON")
     exhaustive_note = ("every history of length <= 2 (quick) / <= 3 (thorough) over 6 mutating ops x 6 views "
                        "(R <- A <- B, sibling A2, two instances of B), one key")
-    quick_n = 1500
-    thorough_n = 40000
+    quick_n = 6000
+    thorough_n = 60000
     case_timeout = 20
 
     def corpus(self):
